@@ -78,6 +78,7 @@ class Hist:
         ev = o.get("ev", [])
         prev = self.prev
         kind = toks[1] if op == "T" else None
+        self._toks = toks
 
         if res == "halt":
             self.v("C03", i, "block hook panicked: %s" % o.get("err", "")[:200])
@@ -681,7 +682,13 @@ class Hist:
                 if p.get(int(d), 0) < I(a):
                     return "price %d below minimum %s (denom %s)" % (p.get(int(d), 0), a, d)
             return None
-        if op in ("E", "G"):
+        def consistent(mx, mn):
+            m = dict((int(d), I(a)) for d, a in mx)
+            return all(I(a) <= m[int(d)] for d, a in mn if int(d) in m)
+        in_domain = consistent(par["max_gb"], par["min_gb"]) and consistent(par["max_hr"], par["min_hr"])
+        if op in ("E", "G") and not in_domain:
+            self.nt("C11.out_of_domain")     # DESIGN section 5.1 (min <= max) does not hold: the statement does not apply
+        if op in ("E", "G") and in_domain:
             for n in st["node"]:
                 for w, mx, mn in (("gb", par["max_gb"], par["min_gb"]), ("hr", par["max_hr"], par["min_hr"])):
                     bad = within(n[w], mx, mn)
@@ -792,6 +799,30 @@ class Hist:
                 self.nt("C18")
             elif I(cnt[name]) != I(pc[name]):
                 self.v("C18", i, "%s counter moved without a creation" % name)
+        # allocations and payouts are created under the identifier of the subscription the operation is about
+        pal = {(I(a["id"]), a["a"]) for a in prev["alloc"]}
+        new_al = [(I(a["id"]), a["a"]) for a in st["alloc"] if (I(a["id"]), a["a"]) not in pal]
+        ppo = {I(p_["id"]) for p_ in prev["payout"]}
+        new_po = [I(p_["id"]) for p_ in st["payout"] if I(p_["id"]) not in ppo]
+        if new_al or new_po:
+            if kind == "sub_allocate":
+                want = I(self._toks[3])
+                to = self._toks[4].lower().split(":", 1)[1]
+                for (aid, aa) in new_al:
+                    if aid != want or aa != to:
+                        self.v("C18", i, "sharing on subscription %d created an allocation carrying identifier %d (holder %s)" % (want, aid, aa[:12]))
+                if new_po:
+                    self.v("C18", i, "sharing created a payout")
+            elif kind in ("node_subscribe", "plan_subscribe"):
+                want = I(cnt["sub"])
+                for (aid, aa) in new_al:
+                    if aid != want:
+                        self.v("C18", i, "subscription %d created with an allocation carrying identifier %d" % (want, aid))
+                for pid in new_po:
+                    if pid != want:
+                        self.v("C18", i, "subscription %d created with a payout carrying identifier %d" % (want, pid))
+            else:
+                self.v("C18", i, "allocation/payout %s%s created by an operation that creates no subscription" % (new_al[:2], new_po[:2]))
         for name, vals in ev:
             if name == "subscription.EventPayForSession":
                 sess_id, sub_id = I(vals[4]["z"]), I(vals[5]["z"])
